@@ -386,6 +386,61 @@ def check(prog, run):
                                "`%s` inside `%s` stops the loop at the first member it concerns: violations on the remaining members "
                                "are not reported together with it" % (what, norm_stmt(x)[:70]))
 
+    # ---- V9 the checks on a resolver's signature are independent of each other
+    r9 = run.rule("V9", "SchemaValidator._validate_resolver_arguments, decided for (the resolver takes *args / does not) x (takes **kwargs "
+                        "/ does not): each of its five complaints (missing parameter, positional-only parameter, optional argument "
+                        "without default, fewer than three positional parameters, unknown required parameter) is reachable exactly "
+                        "under the flags it depends on - *args waives only the three-positional-parameters complaint, **kwargs only "
+                        "the missing-parameter one - so all violations of one resolver are reported together", 20)
+    vra = prog.get_func(VAL, "SchemaValidator._validate_resolver_arguments")
+    run.looked_at(vra)
+    SITES = (("Missing resolver parameter", "missing", lambda varpos, kw: not kw),
+             ("positional only", "positional-only", lambda varpos, kw: True),
+             ("must have a default", "optional-without-default", lambda varpos, kw: True),
+             ("3 positional", "three-positional", lambda varpos, kw: not varpos),
+             ("does not match any known", "unknown-required", lambda varpos, kw: True))
+    site_nodes = {}
+    for n in own_nodes(vra.node):
+        if isinstance(n, ast.Call) and isinstance(n.func, ast.Attribute) and n.func.attr == "add_error":
+            txt = "".join(x.value for x in ast.walk(n) if isinstance(x, ast.Constant) and isinstance(x.value, str))
+            for phrase, key, _w in SITES:
+                if phrase in txt:
+                    site_nodes.setdefault(key, []).append(n)
+    shapes.require(len(site_nodes) == len(SITES), "C13.V9: complaints of _validate_resolver_arguments not recognised: %s" % sorted(site_nodes))
+    flag_local = {}
+    for n in own_nodes(vra.node):
+        if isinstance(n, ast.Assign) and len(n.targets) == 1 and isinstance(n.targets[0], ast.Name):
+            src = ast.unparse(n.value)
+            if "VAR_POSITIONAL" in src and "VAR_KEYWORD" not in src:
+                flag_local[n.targets[0].id] = "varpos"
+            elif "VAR_KEYWORD" in src and "VAR_POSITIONAL" not in src:
+                flag_local[n.targets[0].id] = "kw"
+    for varpos in (False, True):
+        for kw in (False, True):
+            def decide(t, varpos=varpos, kw=kw):
+                role = flag_local.get(t.strip())
+                if role is None and "VAR_POSITIONAL" in t and "VAR_KEYWORD" not in t:
+                    role = "varpos"
+                if role is None and "VAR_KEYWORD" in t and "VAR_POSITIONAL" not in t:
+                    role = "kw"
+                if role is not None:
+                    return varpos if role == "varpos" else kw
+                return None
+            try:
+                ev, _exits = boolx.walk_under(vra.node, decide)
+            except ValueError as e:
+                raise AnalysisError("C13.V9: %s" % e)
+            for phrase, key, want in SITES:
+                got = any(id(n) in ev for n in site_nodes[key])
+                r9.instance("*args=%s **kwargs=%s: complaint %s reachable: %s" % (varpos, kw, key, got))
+                if got != want(varpos, kw):
+                    run.report(r9, "%s:SchemaValidator._validate_resolver_arguments:%s(*args=%s,**kwargs=%s)" % (VAL, key, varpos, kw), vra.where(site_nodes[key][0]),
+                               "for a resolver %s *args and %s **kwargs the complaint \"%s...\" is %s: %s"
+                               % ("with" if varpos else "without", "with" if kw else "without", phrase,
+                                  "never made" if want(varpos, kw) else "made",
+                                  "an incompatible resolver passes validation and fails with TypeError when the field is executed" if want(varpos, kw)
+                                  else "a compatible resolver is rejected"))
+
     # ---- I1 memoised verdict dropped by every mutator
     r = run.rule("I1", "every Schema method that writes a validation input (field.resolver, field.subscription_resolver, "
                        "object_type.default_resolver) resets self._is_valid on every path after the write; validate() recomputes "
